@@ -588,7 +588,7 @@ func (a *align) RefCoordinates(name string, refstart, reflen int) (alistart, ali
 		}
 	}
 
-	if refstart+reflen > len(seq)-ngaps {
+	if refstart+reflen < 0 || refstart+reflen > len(seq)-ngaps {
 		err = fmt.Errorf("start + Length (%d + %d) on reference sequence falls outside the sequence", refstart, reflen)
 	}
 
